@@ -6,6 +6,7 @@ package childqueues_updater
 import (
 	"context"
 	"fmt"
+	"sort"
 
 	"sigs.k8s.io/controller-runtime/pkg/client"
 
@@ -32,6 +33,9 @@ func (ru *ChildQueuesUpdater) UpdateQueue(ctx context.Context, queue *v2.Queue) 
 
 		childrenQueueNames = append(childrenQueueNames, childQueue.Name)
 	}
+	// List order is not stable (informer cache): report the children in a fixed order, otherwise the status is
+	// rewritten - and the queue and its parent re-enqueued - on every reconcile.
+	sort.Strings(childrenQueueNames)
 	queue.Status.ChildQueues = childrenQueueNames
 
 	return nil
